@@ -112,6 +112,8 @@ def _add_cycle_free(model: "Model", fluxes: Dict[str, float]) -> None:
         if rxn.boundary:
             rxn.bounds = (flux, flux)
             continue
+        # the solver may report fluxes that violate the bounds within its tolerance
+        flux = min(max(flux, rxn.lower_bound), rxn.upper_bound)
         if flux >= 0:
             rxn.bounds = max(0, rxn.lower_bound), min(flux, rxn.upper_bound)
             objective_vars.append(rxn.forward_variable)
